@@ -198,8 +198,9 @@ Definition index_tables (t : utree) : res tables :=
   if has_dup_sorted ids then Err "Cannot create a tip index when several tips have the same name"
   (* ClearBitSets *)
   else if Nat.eqb (length ids) 0 then Err "No tips in the index, tip name index is not initialized"
-  (* computeEdgeHashesRightRecur(root, nil, nil) dereferences the nil edge when the root is a tip *)
-  else if is_tip t then Err "panic"
+  (* a root with a single neighbour is a "tip" for Tips()/the tip index, but
+     computeEdgeHashesRightRecur(root, nil, nil) treats it as an inner node ("cur.Tip() && e != nil"):
+     its name gets a rank, no bitset ever has that bit, no count includes it *)
   else Ok (mkTables ids (map (fun n => index_of n ids) (tip_names t)) (rows_below ids t (0%N, 0))).
 
 Definition rows (t : utree) : list erow := rows_below (sorted_tip_names t) t (0%N, 0).
